@@ -895,7 +895,7 @@ func (runInfo *runInfoStruct) invokeIncludeExpr(expr *ast.IncludeExpr) {
 	if runInfo.err != nil {
 		return
 	}
-	itemExpr := runInfo.rv
+	itemExpr := unalias(runInfo.rv)
 
 	runInfo.expr = expr.ListExpr
 	runInfo.invokeExpr()
